@@ -19,7 +19,7 @@
  *   ARENA                      segments are handed over inside a large zeroed buffer (reads past the
  *                              segment return 00 instead of trapping under ASan)
  * outputs:
- *   BASE a | NOUPDATE | FLAG f | ERASE a | WRITE a len cks | VERIFY n sum siglen sigsum verdict
+ *   BASE a | NOUPDATE | FLAG f | ERASE a | WRITE a len cks | VERIFY n sum siglen sigsum verdict builtinkey
  *   | UPGRADEREBOOT | RESTART
  * After RESTART/UPGRADEREBOOT the rest of the *current* callback still runs (system_restart()
  * returns on the ESP8266), later events are ignored (the device has rebooted). */
@@ -59,10 +59,16 @@ void *c18_malloc(size_t n) {
 void c18_flag_set(unsigned char f) { v_upgrade_flag = f; vout("FLAG %u", (unsigned)f); }
 void c18_upgrade_reboot(void) { vout("UPGRADEREBOOT"); halted = !nohalt; }
 static void on_restart(void) { vout("RESTART"); halted = !nohalt; }
+/* the key handed to the verification: 1 iff the modulus is the built-in rsa_public_key_bytes[RSA_NUM_BYTES] and the
+ * exponent is RSA_PUBLIC_EXPONENT (both set since the last verification) */
+static int key_mod_ok = 0, key_exp_ok = 0;
+void c18_key_modulus(mpz_t x, size_t length, const uint8_t *s) { (void)x; key_mod_ok = (s == rsa_public_key_bytes && length == RSA_NUM_BYTES); }
+void c18_key_exponent(mpz_t x, unsigned long int e) { (void)x; key_exp_ok = (e == RSA_PUBLIC_EXPONENT); }
 int c18_rsa_sha256_verify(const struct rsa_public_key *key, struct sha256_ctx *hash, const mpz_t sig) {
   (void)key; (void)hash; (void)sig;
   int v = or_mode == 1 ? 1 : or_mode == 2 ? (v_sha_bytes == or_n && v_sha_sum == or_s && v_sig_len == 512 && v_sig_sum == or_g) : 0;
-  vout("VERIFY %llu %u %u %u %d", v_sha_bytes, v_sha_sum, (unsigned)v_sig_len, v_sig_sum, v);
+  vout("VERIFY %llu %u %u %u %d %d", v_sha_bytes, v_sha_sum, (unsigned)v_sig_len, v_sig_sum, v, key_mod_ok && key_exp_ok);
+  key_mod_ok = key_exp_ok = 0;
   return v;
 }
 static void on_flash(const char *op, unsigned addr, unsigned len) {
